@@ -260,6 +260,54 @@ func runC11(c *core.Ctx) *core.Violation {
 	}
 	c.Count("payload_mutants", pm)
 	c.Nontrivial = mutants+pm > 0
+
+	// ---- (d) several loaders at once (1 run in 4): sync and restore mode run one loader per source / input file in the
+	// same process; every payload each of them emits must still carry the CRC-64 of its own bytes
+	if t.Choose(4) == 3 {
+		nl := 2 + t.Choose(2)
+		files := [][]byte{file}
+		for len(files) < nl {
+			f2, _, _, _ := gen.RDB(t, gen.RDBOpts{MaxKeys: 4, MaxElem: 200, MinVersion: 5})
+			files = append(files, f2)
+		}
+		var cv *core.Violation
+		s := simrt.Run(c.TT, t, simrt.Config{MaxSteps: 2000000, MaxSimTime: time.Hour, Trace: c.Trace}, func(s *simrt.Sim) {
+			p := s.NewProc("loaders")
+			finished := 0
+			for i := range files {
+				i := i
+				s.GoProc(p, fmt.Sprintf("loader-%d", i), func() {
+					defer func() { finished++ }()
+					es, err, _ := loadAll(files[i])
+					if err != nil {
+						if cv == nil {
+							cv = core.Violate("intact-rdb-rejected", "concurrent-loaders", "loader %d of %d running at once rejected an intact RDB: %v", i, len(files), err)
+						}
+						return
+					}
+					for _, e := range es {
+						if e.Type == 0xFA {
+							continue
+						}
+						if _, _, err := utils.CheckVersionChecksum(e.Value); err != nil && cv == nil {
+							cv = core.Violate("intact-payload-rejected", "concurrent-loaders", "loader %d of %d running at once emitted a payload for key %q whose trailer does not verify: %v", i, len(files), clipS(e.Key), err)
+						}
+					}
+				})
+			}
+			for k := 0; k < 600 && finished < len(files) && s.Alive(p); k++ {
+				s.Sleep(100 * time.Millisecond)
+			}
+			if cv == nil && p.Panicked {
+				cv = core.Violate("go-panic", "concurrent-loaders", "Go panic: %s", firstLines(p.PanicMsg, 5))
+			}
+		})
+		c.Absorb(s)
+		if cv != nil {
+			return cv
+		}
+		c.Probe("several_loaders_at_once")
+	}
 	return nil
 }
 
@@ -287,7 +335,7 @@ func init() {
 			"rdb.DecodeDump is not applied to stream values (not supported by that decoder) and to chunk payloads (not standalone)",
 		},
 		RealVsStub: "real: pkg/rdb/digest, in-repo and upstream cupcake crc64, pkg/rdb loader (Footer), rdb.DecodeDump verifier, utils.CheckVersionChecksum; simulated: stored-byte corruption, truncation; no scheduler involvement (pure functions of the bytes)",
-		ProbeNames: []string{"payload_exhausted"},
+		ProbeNames: []string{"payload_exhausted", "several_loaders_at_once"},
 		FaultNames: []string{"rdb_byte_substituted"},
 	})
 }
